@@ -42,6 +42,7 @@ PANDAS_MUTATORS = {'insert', 'pop', 'update'}
 class Frame:
     func: Func
     node: ast.AST  # the call site
+    callee: str = ''
 
 
 @dataclass
@@ -259,7 +260,7 @@ class _Run:
         return e
 
     def embed(self, summ: Summary, node, st) -> None:
-        fr = Frame(self.func, node)
+        fr = Frame(self.func, node, summ.func.qname)
         for e in summ.events:
             self.ex._seq += 1
             self.events.append(replace(
